@@ -39,19 +39,42 @@ func receiptsBody(nsend int) nd.Body {
 		var env *vsess.Env
 		var setupErr error
 		receiptsSent := map[string]int{}
+		type inst struct {
+			id string
+			n  int
+		}
+		instOf := map[string]inst{} // id of a receipt message -> (acknowledged id, instance)
+		var dispatching inst
+		lostReceipt := ""
+		ctxs := make([]context.Context, nsend)
+		cancels := make([]context.CancelFunc, nsend)
+		for i := range ctxs {
+			ctxs[i], cancels[i] = context.WithCancel(context.Background())
+		}
 		out := vs.Run(c, vs.Options{Horizon: 20000}, func() {
 			env, setupErr = vsess.New(ns, 0)
 			if setupErr != nil {
 				return
 			}
-			h := &receipts.Handler{Unhandled: func(id string) { unhandled = append(unhandled, id) }}
+			h := &receipts.Handler{Unhandled: func(id string) {
+				unhandled = append(unhandled, id)
+				// the first receipt for a message whose sender is still waiting (not
+				// cancelled, not returned) is a response somebody waits for
+				var idx int
+				if n, _ := fmt.Sscanf(id, "m%d", &idx); n == 1 && idx >= 1 && idx <= nsend && dispatching.id == id && dispatching.n == 1 &&
+					!outs[idx-1].returned && ctxs[idx-1].Err() == nil && !sendFails && lostReceipt == "" {
+					lostReceipt = id
+				}
+			}}
 			m := mux.New(ns, receipts.Handle(h))
 			answered := map[string]bool{}
 			var late []string
 			var seenOut strings.Builder
 			receipt := func(id string) string {
 				receiptsSent[id]++
-				return fmt.Sprintf(`<message from='example.net' id='rc%d'><received xmlns='urn:xmpp:receipts' id='%s'/></message>`, len(receiptsSent)*10+receiptsSent[id], id)
+				mid := fmt.Sprintf("rc%d", len(receiptsSent)*10+receiptsSent[id])
+				instOf[mid] = inst{id, receiptsSent[id]}
+				return fmt.Sprintf(`<message from='example.net' id='%s'><received xmlns='urn:xmpp:receipts' id='%s'/></message>`, mid, id)
 			}
 			env.Lib.OnWrite = func(p []byte) {
 				seenOut.Write(p)
@@ -82,18 +105,15 @@ func receiptsBody(nsend int) nd.Body {
 				}
 			}
 			env.Serve(xmpp.HandlerFunc(func(t xmlstream.TokenReadEncoder, start *xml.StartElement) error {
+				dispatching = inst{}
 				for _, a := range start.Attr {
 					if a.Name.Local == "id" {
 						topLevel = append(topLevel, a.Value)
+						dispatching = instOf[a.Value]
 					}
 				}
 				return m.HandleXMPP(t, start)
 			}))
-			ctxs := make([]context.Context, nsend)
-			cancels := make([]context.CancelFunc, nsend)
-			for i := range ctxs {
-				ctxs[i], cancels[i] = context.WithCancel(context.Background())
-			}
 			if sendFails {
 				// the application already closed the session's output: the send fails
 				env.S.Close()
@@ -177,6 +197,9 @@ func receiptsBody(nsend int) nd.Body {
 			case !o.cancelled:
 				return fail("error-without-cancellation", "%s returned %v although its context was not cancelled", id, o.err)
 			}
+		}
+		if lostReceipt != "" {
+			return fail("receipt-for-waiting-call-went-to-unhandled", "the first receipt for %s was reported as unhandled while its sender was waiting for it (not cancelled, not returned)", lostReceipt)
 		}
 		if len(topLevel) == 0 || topLevel[len(topLevel)-1] != "sentinel" {
 			return fail("serve-loop-stalled", "the sentinel stanza was never dispatched")
